@@ -19,7 +19,18 @@ import (
 	"time"
 )
 
-const verifDir = "/verif"
+// verifDir is the directory that holds bin/simcheck (normally /verif; a
+// snapshot made by `vp run` works from its own copy).
+var verifDir = func() string {
+	if exe, err := os.Executable(); err == nil {
+		if d := filepath.Dir(filepath.Dir(exe)); d != "" {
+			if _, err := os.Stat(filepath.Join(d, "simkernel", "verifsim_linux.go")); err == nil {
+				return d
+			}
+		}
+	}
+	return "/verif"
+}()
 
 // repoDir is /repo; SIM_REPO overrides it only for runs against seeded defects that
 // were written for an earlier commit of /repo (tools/seeded.sh uses a scratch worktree then).
